@@ -96,4 +96,8 @@ the pointwise weighted image (`w₀ * W` resp. `W ∘ MultiplyOperator(w)`). -/
 def adjointInverse {K : Type} [Mul K] (W : (Nat → K) → Nat → K) (w x : Nat → K) : Nat → K :=
   W (fun i => w i * x i)
 
+/-- `WaveletTransform(.Inverse).adjoint` is exposed only for ORTHOGONAL wavelets (and a known,
+constant-type weighting); otherwise `OpNotImplementedError` (`super().adjoint`). -/
+def adjointExposed (orthogonal weightsKnown : Bool) : Bool := orthogonal && weightsKnown
+
 end OdlModel.Wavelet
